@@ -69,6 +69,9 @@ def build(p):
            ("new", "r", spec), ("fills", "r", [(d, eff(w)) for d, w in rows])]
     expect = [("reply", 1, "ok", "fill.numpy raised or modified its inputs"),
               ("eqdoc_pruned", "v", "r", "vectorised fill differs from per-row fill")]
+    # the statement of the C03 theorem, evaluated on the model's copies of these states
+    ops += [("mcheck", ["prune", "vp", "v"], "ok"), ("mcheck", ["prune", "rp", "r"], "ok"), ("mcheck", ["same", "vp", "rp"], True),
+            ("mcheck", ["good", "r"], True)]
     cut = min(p["cut"], len(rows))
     ops += [("new", "s", spec), ("fillsnp", "s", rows[:cut], mode), ("fillsnp", "s", rows[cut:], mode)]
     expect += [("reply", len(ops) - 2, "ok", "fill.numpy (first part of a split batch) raised"),
@@ -76,7 +79,9 @@ def build(p):
                ("eqdoc_pruned", "s", "r", "successive fill.numpy calls on a split batch differ from per-row fill")]
     # and on top of an aggregator that already holds row-filled data
     ops += [("new", "m", spec), ("fills", "m", [(d, eff(w)) for d, w in rows[:cut]]), ("fillsnp", "m", rows[cut:], mode)]
-    expect += [("reply", len(ops) - 1, "ok", "fill.numpy on a pre-filled aggregator raised"),
+    ops += [("mcheck", ["prune", "mp", "m"], "ok"), ("mcheck", ["prune", "sp", "s"], "ok"), ("mcheck", ["prune", "rp2", "r"], "ok"),
+            ("mcheck", ["same", "mp", "rp2"], True), ("mcheck", ["same", "sp", "rp2"], True)]
+    expect += [("reply", len(ops) - 6, "ok", "fill.numpy on a pre-filled aggregator raised"),
                ("eqdoc_pruned", "m", "r", "row fills followed by fill.numpy differ from per-row fill")]
     return {"ops": ops, "expect": expect}
 
